@@ -87,9 +87,22 @@ Proof.
 Qed.
 
 (** non-vacuity: concrete interior points *)
+Lemma Rpower_gt_1 x y : 1 < x -> 0 < y -> 1 < Rpower x y.
+Proof.
+  intros hx hy. unfold Rpower. rewrite <- exp_0. apply exp_increasing.
+  apply Rmult_lt_0_compat; [exact hy|]. rewrite <- ln_1. apply ln_increasing; lra.
+Qed.
 Example exp_dual_int_example : exp_dual_int (-1, 0, 1).
-Proof. unfold exp_dual_int. split; interval. Qed.
+Proof.
+  unfold exp_dual_int. split; [lra|]. replace (0 / -1) with 0 by field. rewrite exp_0.
+  pose proof (exp_ineq1 1 ltac:(lra)). lra.
+Qed.
 Example exp_primal_int_example : exp_primal_int (0, 1, 2).
-Proof. unfold exp_primal_int. split; interval. Qed.
+Proof. unfold exp_primal_int. split; [lra|]. replace (0 / 1) with 0 by field. rewrite exp_0. lra. Qed.
 Example pow_dual_int_example : pow_dual_int (1 / 4) (1, 1, 1).
-Proof. unfold pow_dual_int. repeat split; try lra. rewrite Rabs_R1. unfold Rpower. interval. Qed.
+Proof.
+  unfold pow_dual_int. repeat split; try lra. rewrite Rabs_R1.
+  assert (h1 : 1 < Rpower (1 / (1 / 4)) (1 / 4)) by (apply Rpower_gt_1; lra).
+  assert (h2 : 1 < Rpower (1 / (1 - 1 / 4)) (1 - 1 / 4)) by (apply Rpower_gt_1; lra).
+  nra.
+Qed.
